@@ -116,7 +116,7 @@ def generate(rng, tier):
             for n in ([0, 1, -1] + [rand_n(rng) for _ in range(2 if quick else 6)]):
                 yield dict(tag='unit-%s' % u, lines=[line('bump', t, tok(n, u))])
     # --- random days x units, intraday for the fixed and business-day units
-    for _ in range(1200 if quick else 40000):
+    for _ in range(4000 if quick else 40000):
         u = rng.choice(UNITS)
         t = rand_day(rng)
         intraday = u not in MONTHLY and rng.random() < 0.5
@@ -128,7 +128,7 @@ def generate(rng, tier):
         t = rand_day(rng) + rand_tod(rng)
         yield dict(tag='monthly-intraday', lines=[line('bump', t, tok(rand_n(rng), rng.choice(MONTHLY)))])
     # --- compound tenors (2 and 3 parts), several bump arguments, ints, timedeltas, named tenors
-    for _ in range(700 if quick else 25000):
+    for _ in range(2500 if quick else 25000):
         k = rng.choice([2, 2, 3])
         t = rand_day(rng)
         us = [rng.choice(UNITS) for _ in range(k)]
@@ -296,7 +296,7 @@ def laws(rng, tier, ctx):
                 yield bad('law-b-nth', [line('bump', tt, '%db' % n)], "dt_bump(t,'%db') = %s, the %d-th weekday is %s" % (n, r, n, want))
                 break
     # ---- monotone in t (day level and intraday), composition, inverse
-    m = 3000 if quick else 60000
+    m = 8000 if quick else 60000
     for _ in range(m):
         n = rand_n(rng)
         t1 = rand_day(rng) + rand_tod(rng)
